@@ -27,6 +27,11 @@ pub trait Project<T> { type Out; }
 impl<T> Project<T> for Holder { type Out = T; }
 pub trait Family { type Of<T>; }
 impl Family for Holder { type Of<T> = W<T>; }
+/// a trait object whose only mention of the parameter is an associated-type binding
+pub trait Source { type Out; fn get(&self) -> &Self::Out; }
+macro_rules! dynfwd { ($($tr:ident),*) => { $( impl<'s, T: fmt::$tr> fmt::$tr for dyn Source<Out = T> + 's {
+    fn fmt(&self, f: &mut fmt::Formatter<'_>) -> fmt::Result { fmt::$tr::fmt(self.get(), f) } } )* } }
+dynfwd!(Display, Debug, Binary, Octal, LowerHex, UpperHex, LowerExp, UpperExp);
 pub fn need_display<X: fmt::Display>() {}
 pub fn need_debug<X: fmt::Debug>() {}
 pub fn need_binary<X: fmt::Binary>() {}
@@ -44,7 +49,9 @@ NEED = {"Display": "need_display", "Debug": "need_debug", "Binary": "need_binary
 def gen_field_type(rng, params, trait):
     """(rust type, set of params mentioned, formats under `trait` iff those params do)"""
     p = rng.choice(params)
-    k = rng.randrange(8)
+    k = rng.randrange(9)
+    if k == 8:
+        return "Box<dyn Source<Out = %s>>" % p if trait in ("Display", "Debug") else "W<%s>" % p, {p}
     if k == 6:
         return "<Holder as Project<%s>>::Out" % p, {p}
     if k == 7:
@@ -170,6 +177,24 @@ def gen_case(rng, k):
                 formatted |= mentioned(fs[j]["ty"], params)
                 pieces.append(rng.choice(["", " ", "-"]))
             args = [a for a in args if a[0] is None] + [a for a in args if a[0] is not None]
+            if rng.random() < 0.12 and not any(a[0] is not None for a in args) and trait in ("Display", "LowerExp", "UpperExp", "Debug"):
+                # `{x:.*}`: the precision takes the next implicit argument even though the value is named;
+                # a following `{}` therefore denotes the argument after it
+                j = rng.randrange(n)
+                if "PhantomData" not in fs[j]["ty"] and not any(s_ in fs[j]["ty"] for s_ in ("Vec<", "Option<", "[", "(")):
+                    base = len(args)
+                    pieces = ["{pv:.*%s}" % LETTER[trait], " "] + [re.sub(r"^\{(?=[:}])", "{%d" % (base + 1), p_) if False else p_ for p_ in pieces]
+                    # implicit placeholders already present would shift: only use this form when none is implicit
+                    if not any(re.match(r"^\{[:}]", p_) for p_ in pieces[2:]):
+                        args = args + [(None, "2usize")]
+                        pieces.append("{}")
+                        args.append((None, idents[j]))
+                        args.append(("pv", "1.5f64" if trait != "Debug" else "1.5f64"))
+                        formatted |= mentioned(fs[j]["ty"], params)
+                        c.notes.append("star-explicit-then-implicit")
+                        args = [a for a in args if a[0] is None] + [a for a in args if a[0] is not None]
+                    else:
+                        pieces = pieces[2:]
             lit = "".join(pieces)
             own_attr = "#[%s(%s)] " % (attr_name, ", ".join([F.rust_lit(lit)] + [("%s = " % a if a else "") + e for (a, e) in args]))
         else:
@@ -183,6 +208,21 @@ def gen_case(rng, k):
         body = (" { %s }" % ", ".join("%s%s: %s" % (f["fattr"], f["name"], f["ty"]) for f in fs)) if kind == "named" else \
             "(%s)" % ", ".join(f["fattr"] + f["ty"] for f in fs)
         decl_vs.append((own_attr, body, kind))
+    shared_attr = ""
+    if is_enum and rng.random() < 0.4 and trait != "Debug":
+        # an enum-level format that wraps every variant through `_variant` (variants without own format delegate
+        # implicitly to their single field, so that field's type needs the derived trait)
+        shared_attr = "#[%s(%s)] " % (attr_name, F.rust_lit(rng.choice(["<{_variant}>", "{_variant}!", "v={_variant} "])))
+        c.notes.append("shared-wrap")
+        fixed = []
+        for (own, body, kind) in decl_vs:
+            fields_n = body.count(":") if kind == "named" else (0 if body == "()" else body.count(",") + 1)
+            fixed.append((own, body, kind))
+        decl_vs = fixed
+        # add one variant without own format holding a bare parameter: formatted implicitly under the derived trait
+        pv = rng.choice(params)
+        decl_vs.append(("", "(W<%s>)" % pv, "unnamed"))
+        formatted.add(pv)
     bounds = ""
     if user_bounded:
         bounds = "#[%s(bound(%s))] " % (attr_name, ", ".join("%s: core::fmt::%s" % (ty, tr) for (ty, tr) in sorted(user_bounded)))
@@ -194,7 +234,7 @@ def gen_case(rng, k):
         for vi, (own, body, kind) in enumerate(decl_vs):
             vs.append("%sV%d%s" % (own, vi, body))
         vs.append("#[%s(\"ph\")] Ph(%s)" % (attr_name, ", ".join("PhantomData<%s>" % p for p in params)))
-        c.decl = "#[derive(derive_more::%s)] %spub enum Ty%s { %s }" % (trait, bounds, gen, ", ".join(vs))
+        c.decl = "#[derive(derive_more::%s)] %s%spub enum Ty%s { %s }" % (trait, bounds, shared_attr, gen, ", ".join(vs))
     else:
         own, body, kind = decl_vs[0]
         used = mentioned(body, params)
